@@ -773,7 +773,10 @@ impl KotoIterator for Skip {
                 // An error thrown while producing a skipped value still has to be reported
                 Some(error @ Output::Error(_)) => return Some(error),
                 Some(_) => {}
-                None => break,
+                None => {
+                    // The input is exhausted, there's nothing left to skip
+                    self.remaining = 0;
+                }
             }
         }
 
@@ -791,7 +794,11 @@ impl Iterator for Skip {
                 // An error thrown while producing a skipped value still has to be reported
                 Some(error @ Output::Error(_)) => return Some(error),
                 Some(_) => {}
-                None => return None,
+                None => {
+                    // The input is exhausted, there's nothing left to skip
+                    self.remaining = 0;
+                    return None;
+                }
             }
         }
         self.iter.next()
